@@ -253,4 +253,10 @@ theorem noBackwardRef_of_char (params : List Name) : ∀ (args : List Expr),
         have := h (i + 1) (j + 1) x (by simpa using hi) (by simpa using hj)
         omega
 
+theorem noBackwardRef_of_disjoint (params : List Name) (args : List Expr)
+    (h : ∀ a ∈ args, ∀ p ∈ params, a ≠ .var p) : noBackwardRef params args = true := by
+  apply noBackwardRef_of_char
+  intro i j x hi hj
+  exact absurd rfl (h (.var x) (List.mem_of_getElem? hi) x (List.mem_of_getElem? hj))
+
 end SamVerif.TailRec
